@@ -15,9 +15,9 @@ fn main() {
         let seed: u64 = args[4].parse().unwrap_or(1);
         pdfmon::panicmon::install();
         match args[2].as_str() {
-            "C01" => pdfmon::sup::worker_loop(pdfmon::props::c01::worker(tier, seed)),
-            "C14" => pdfmon::sup::worker_loop(pdfmon::props::c14::worker(tier, seed)),
-            "C20" => pdfmon::sup::worker_loop(pdfmon::props::c20::worker(tier, seed)),
+            "C01" => { pdfmon::mon::enable_block_detect(); pdfmon::sup::worker_loop(pdfmon::props::c01::worker(tier, seed)) }
+            "C14" => { pdfmon::mon::enable_block_detect(); pdfmon::sup::worker_loop(pdfmon::props::c14::worker(tier, seed)) }
+            "C20" => { pdfmon::mon::enable_block_detect(); pdfmon::sup::worker_loop(pdfmon::props::c20::worker(tier, seed)) }
             "C13" => pdfmon::sup::worker_loop(pdfmon::props::c13::worker(tier, seed)),
             _ => std::process::exit(2),
         }
